@@ -154,7 +154,7 @@ func runSchedule(c schedCase, choose func(step int, enabled []int) int) (outcome
 	fns := make([]func(), len(c.Tasks))
 	for i := range c.Tasks {
 		i := i
-		fns[i] = func() { o.Replies[i] = replyText(c.Tasks[i], s.Do(c.Tasks[i]...)) }
+		fns[i] = func() { o.Replies[i] = replyText(c.Tasks[i], s.DoInline(c.Tasks[i]...)) }
 	}
 	ctl := sched.Controller{}
 	res := ctl.Run(fns, choose)
